@@ -99,8 +99,13 @@ int main(int argc, char** argv) {
       if (tag == "F") {
         std::tm tm = to_tm(al);
         std::string env = "[";
-        for (size_t j = 0; j < stretches.size(); ++j)
-          env += (j ? "," : "") + std::string("[") + bj(stretches[j]) + "," + bj(libc_strftime(stretches[j], tm)) + "]";
+        bool firstj = true;
+        for (size_t j = 0; j < stretches.size(); ++j) {
+          // a stretch with a NUL cannot be handed to the C library faithfully: no answer is recorded for it
+          if (stretches[j].find('\0') != std::string::npos) continue;
+          env += (firstj ? "" : ",") + std::string("[") + bj(stretches[j]) + "," + bj(libc_strftime(stretches[j], tm)) + "]";
+          firstj = false;
+        }
         env += "]";
         out.emit("{\"e\":\"Format\"" + hdr + ",\"out\":" + bj(o) + ",\"env\":" + env + ",\"ub\":" + std::to_string(ub) + "}");
       } else {
